@@ -524,6 +524,8 @@ def execute(plan, tape):
                         sp["_others"] = [bp.build(pool[j % len(pool)], side.env) for j in sp.get("others", [])]
                     elif kk == "foreign":
                         sp["_foreign"] = f
+                    elif kk == "model_value_shared":
+                        sp["_model"] = calls.partial_model(side.env, symbols)
                     return calls.perform(side.env, sp, f, term, user)
                 ra, rb = on(A, lambda: do(A)), on(B, lambda: do(B))
                 c = same(o["call"], ra, rb, term, "pool[%d]=%s" % (i, bp.pretty(term)[:120]))
